@@ -148,7 +148,9 @@ fn solver_level<F: Fam>(spec: &CaseSpec) {
     cfg.monitors = 0;
     let o1 = run_solver(&with, &cfg);
     let o0 = run_solver(&without, &cfg);
+    let spec = &super::solverprops::with_grants(&CaseSpec { cfg: cfg.clone(), ..spec.clone() }, &o1);
     with_acc(|a| {
+        super::par::note_schedule(a, &o1);
         a.evaluations += 2;
         a.bump("solver_level_pairs", 1);
         if o1.livelock.is_some() || o0.livelock.is_some() { a.inconclusive("non-termination of the pooled diagram (decided by C15/C01)", light_case(spec, with.as_ref())); return; }
@@ -216,8 +218,10 @@ pub fn run(shard: &Shard) -> i32 {
             let p = Profile { only_all_impacted: true, with_dominance: true, small: rng.chance(1, 2), weak_t_dominance: true, ..Default::default() };
             let mut spec = random_spec(rng, &p);
             if spec.variant.dom == DomKind::None { spec.variant.dom = if rng.chance(2, 3) { DomKind::Exact } else { DomKind::Weak }; }
-            if rng.chance(1, 4) {
-                spec.cfg.par = Some(Par { n0: 1 + rng.usize(3), n1: None, mode: ParMode::Free });
+            if rng.chance(1, 3) {
+                // parallel: free running, or under the controlled scheduler with the dominance queries as yield points
+                let mode = if rng.chance(1, 2) { ParMode::Free } else { ParMode::Sched { strategy: crate::sched::Strategy::Random(rng.next()), budget: 200_000, poll_yields: true, cache_yields: true } };
+                spec.cfg.par = Some(Par { n0: 1 + rng.usize(3), n1: None, mode });
             }
             with_family!(spec.family, solver_level, &spec);
         }
